@@ -16,5 +16,5 @@ globals().update(make(
     lambda mon, case: mon.c['probes'] > 0 and mon.c['handovers_after_block'] > 0,
     lambda mon, case: sorted({'unblock:' + a[1] for a in mon.m.action_log
                               if a[1] in ('restore', 'block', 'addres', 'adjust', 'rewire_add', 'maint', 'wo')}),
-    quick=(450, 4), thorough=(1200, 16), watchdog=True,
+    quick=(350, 4), thorough=(1200, 16), watchdog=True,
     assumptions=['the probe works on copy.deepcopy(System); harness callbacks are inert while probing']))
